@@ -279,6 +279,18 @@ fn control_matrix(e: &mut Eng, thorough: bool) {
             e.run(&single(&ops, &base), JudgeOpts { mapped: true, lockstep: true, eval: ev }, "control-matrix");
         }
     }
+    // every entry position of a small program, including at and beyond its end (list and mapped form)
+    let prog = vec![PUSH(1), PUSH(2), ADD, HLT, PUSH(7), PUSH(3), PUSH(1), JMPIF, PUSH(8), PUSH(9)];
+    for pc in 0..prog.len() + 4 {
+        for mapped in [false, true] {
+            if e.mine() {
+                let mut c = single(&prog, &base);
+                c.pc = pc;
+                c.stack = vec![5, 6];
+                e.run(&c, JudgeOpts { mapped, lockstep: true, eval: false }, "control-matrix");
+            }
+        }
+    }
 }
 
 fn read_matrix(e: &mut Eng, thorough: bool) {
